@@ -547,7 +547,9 @@ class ndarray:
                         flat_assign(self.o, k, vo)
                 else:
                     self.o[k] = vo
-            _touch(self, "w")
+            if _HOOKS["touch"] is not None:
+                tgt = self.o[k]
+                _HOOKS["touch"](tgt if isinstance(tgt, rnp.ndarray) else _cell_view(self.o, k), "w")
             return
         from .snp_index import adv_set
         adv_set(self, k, v)
@@ -745,9 +747,34 @@ _HOOKS = {"touch": None}
 
 
 def _touch(arr, kind, where=None):
+    """Report a read/write of the whole (view of an) array to the access recorder (C16)."""
     h = _HOOKS["touch"]
     if h is not None:
-        h(arr, kind, where)
+        h(arr.o if isinstance(arr, ndarray) else arr, kind)
+
+
+def _cell_view(o, k):
+    """0-d view of the single cell o[k] (k a full basic index of ints)."""
+    try:
+        kk = tuple(slice(i, i + 1) if isinstance(i, int) and i >= 0 else (slice(i, None) if i == -1 else slice(i, i + 1)) for i in k)
+        return o[kk]
+    except Exception:
+        return o
+
+
+def addresses(o):
+    """Set of memory addresses of the element slots of an object array / view."""
+    if not isinstance(o, rnp.ndarray):
+        return set()
+    base = o.__array_interface__["data"][0]
+    if o.ndim == 0:
+        return {base}
+    offs = rnp.zeros(o.shape, dtype=rnp.int64)
+    for ax, (n, st) in enumerate(zip(o.shape, o.strides)):
+        shape = [1] * o.ndim
+        shape[ax] = n
+        offs = offs + (rnp.arange(n, dtype=rnp.int64) * st).reshape(shape)
+    return set((offs + base).reshape(-1).tolist())
 
 
 def _shadow_operand(x):
